@@ -107,8 +107,18 @@ class Recorder:
         self.delivered.append(("delivered-to-__wrapped__", value))
 
 
+class LazyProxy:
+    """Offers `_repr_html_` only dynamically (through __getattr__): by the normal child rules - the runtime protocols look at
+    what the object statically has - it is not a self-rendering object and not a valid child."""
+
+    def __getattr__(self, name):
+        if name == "_repr_html_":
+            return lambda: "<i>from the proxied object</i>"
+        raise AttributeError(name)
+
+
 # ------------------------------------------------------------------ program generation
-VALUE_KINDS = ["strrepr", "inst_repr", "inst_tagify", "inst_none", "none", "ellipsis", "text", "num", "tag", "taglist", "html", "dep", "meta", "tf", "obj", "tfobj", "list", "badlist", "bad", "reprraise", "emptystr"]
+VALUE_KINDS = ["strrepr", "inst_repr", "inst_tagify", "inst_none", "none", "ellipsis", "text", "num", "tag", "taglist", "html", "dep", "meta", "tf", "obj", "tfobj", "list", "badlist", "bad", "reprraise", "emptystr", "wrapprev", "proxy"]
 
 
 def rand_value(rng):
@@ -245,7 +255,14 @@ class Run:
             raise Boom("injected at %d" % self.pos)
 
     def display(self, vr):
-        v = ReprRaises() if vr["k"] == "reprraise" else ... if vr["k"] == "ellipsis" else StrRepr("plain text of the str") if vr["k"] == "strrepr" else gen.build(vr)
+        if vr["k"] == "wrapprev":
+            # a new element that contains the tag of a block that was finished earlier (possibly one that equals the active block's tag)
+            done = [t for t in self.tags if all(t is not a for a in self.active)]
+            v = ht.Tag("section", done[-1], "w") if done else ht.Tag("section", "w")
+        elif vr["k"] == "proxy":
+            v = LazyProxy()
+        else:
+            v = ReprRaises() if vr["k"] == "reprraise" else ... if vr["k"] == "ellipsis" else StrRepr("plain text of the str") if vr["k"] == "strrepr" else gen.build(vr)
         # ---- model
         expect_exc = None
         add = []
@@ -266,7 +283,7 @@ class Run:
                     add = [v]
                 else:
                     expect_exc = TypeError
-            elif k == "bad":
+            elif k in ("bad", "proxy"):
                 expect_exc = TypeError
             else:  # text, num, tag, list/tuple/taglist, html, dep, meta, tf, tfobj: normal child rules
                 try:
@@ -576,6 +593,14 @@ def run(ctx):
         [{"s": "block", "tag": "div", "body": [{"s": "try", "body": [{"s": "display", "v": {"k": "bad", "t": "object"}}]},
                                               {"s": "block", "tag": "ul", "body": [{"s": "try", "body": [{"s": "reenter", "which": 0}]}, {"s": "display", "v": {"k": "none"}}]}]}],
     ]
+    fixed += [
+        # two equal, empty blocks one after the other under one hook; the second displays an element that contains the first
+        [{"s": "block", "tag": "div", "body": []},
+         {"s": "block", "tag": "div", "body": [{"s": "display", "v": {"k": "wrapprev"}}, {"s": "display", "v": {"k": "text", "s": "after"}}]}],
+        [{"s": "block", "tag": "section", "body": [{"s": "block", "tag": "span", "body": []}, {"s": "display", "v": {"k": "text", "s": "between"}},
+                                                  {"s": "block", "tag": "span", "body": [{"s": "display", "v": {"k": "wrapprev"}}, {"s": "block", "tag": "span", "body": []}]}]}],
+        [{"s": "block", "tag": "div", "body": [{"s": "try", "body": [{"s": "display", "v": {"k": "proxy"}}]}, {"s": "display", "v": {"k": "text", "s": "after"}}]}],
+    ]
     progs = list(fixed)
     n = ctx.budget(2500, 2000000)
     skel = 0
@@ -599,7 +624,7 @@ def run(ctx):
     # injected at a few positions (every position would be quadratic)
     if ctx.shard == 0:
         deep = [{"s": "display", "v": {"k": "text", "s": "bottom"}}, {"s": "raise"}]
-        for d_ in range(90):
+        for d_ in range(135):
             deep = [{"s": "display", "v": {"k": "num", "v": d_}}, {"s": "block", "tag": BLOCK_TAGS[d_ % len(BLOCK_TAGS)], "body": deep}, {"s": "display", "v": {"k": "text", "s": "after%d" % d_}}]
         deep_ok = [{"s": "block", "tag": "div", "body": [x for x in deep]}]
         many = [{"s": "block", "tag": "ul", "body": [{"s": "display", "v": ({"k": "text", "s": "v%d" % k} if k % 3 else gen.TAG("li", {"k": "text", "s": "k"}, ws=False) if k % 2 else {"k": "dep", "name": "d", "version": "1.0"})}
